@@ -47,6 +47,9 @@ pub fn install_panic_hook() {
         } else {
             String::new()
         };
+        if std::env::var("VERIF_DEBUG_PANIC").is_ok() {
+            eprintln!("[panic] {} @ {}", msg, loc);
+        }
         LAST_PANIC.with(|p| *p.borrow_mut() = format!("{} @ {}", msg, loc));
     }));
 }
